@@ -693,4 +693,162 @@ theorem pathOf_strip (n : Str) : pathOf (strip n) = pathOf n := by
 theorem pathOf_dots (a b : Nat) (n : Str) : pathOf (dots a ++ n ++ dots b) = pathOf n := by
   unfold pathOf; rw [levels_dots]
 
+/-! ### every dict of the tree has distinct keys (it is a dict) -/
+
+mutual
+/-- all dicts inside the tree have distinct keys -/
+def Tree.KeysOk : Tree → Prop
+  | .share _ _ => True
+  | .node _ _ kids => kidsOk kids
+/-- this dict and all dicts below it have distinct keys -/
+def kidsOk : List (Str × Tree) → Prop
+  | [] => True
+  | (k, t) :: rest => get? rest k = none ∧ t.KeysOk ∧ kidsOk rest
+end
+
+theorem kidsOk_put {kids : Kids} (h : kidsOk kids) (k : Str) {v : Tree} (hv : v.KeysOk) :
+    kidsOk (put kids k v) := by
+  induction kids with
+  | nil => simp [put, kidsOk, get?, hv]
+  | cons e rest ih =>
+    obtain ⟨k', t⟩ := e
+    simp only [kidsOk] at h
+    by_cases hk : k' = k
+    · simp only [put, hk, if_true, kidsOk]
+      exact ⟨by rw [← hk]; exact h.1, hv, h.2.2⟩
+    · simp only [put, hk, if_false, kidsOk]
+      refine ⟨?_, h.2.1, ih h.2.2⟩
+      rw [get?_put]
+      have : ¬ k = k' := fun e => hk e.symm
+      simp [this, h.1]
+
+theorem kidsOk_sub {kids : Kids} (h : kidsOk kids) {k nm : Str} {id : Oid} {sub : Kids}
+    (hg : get? kids k = some (.node nm id sub)) : kidsOk sub := by
+  induction kids with
+  | nil => simp [get?] at hg
+  | cons e rest ih =>
+    obtain ⟨k', t⟩ := e
+    simp only [kidsOk] at h
+    by_cases hk : k' = k
+    · simp only [get?, hk, if_true, Option.some.injEq] at hg
+      subst hg
+      simpa [Tree.KeysOk] using h.2.1
+    · simp only [get?, hk, if_false] at hg
+      exact ih h.2.2 hg
+
+theorem kidsOk_addLoop (lg : Bool) (n : Str) (i : Oid) (tag : Nat) (ks : List Str) :
+    ∀ pre kids k, kidsOk kids → kidsOk (addLoop lg (.share n i) tag pre kids k ks).1 := by
+  induction ks with
+  | nil =>
+    intro pre kids k h
+    simp only [addLoop]
+    split
+    · exact h
+    · exact kidsOk_put h k (by simp [Tree.KeysOk])
+  | cons k' ks ih =>
+    intro pre kids k h
+    simp only [addLoop]
+    split
+    · exact h
+    · split
+      · exact kidsOk_put h k (by simpa [Tree.KeysOk] using ih _ [] k' (by simp [kidsOk]))
+      · exact h
+      · next nm id sub hg =>
+        exact kidsOk_put h k (by simpa [Tree.KeysOk] using ih _ sub k' (kidsOk_sub h hg))
+
+theorem kidsOk_addNodeLoop (lg : Bool) (tag : Nat) (ks : List Str) :
+    ∀ pre kids k, kidsOk kids → kidsOk (addNodeLoop lg tag pre kids k ks).1 := by
+  induction ks with
+  | nil =>
+    intro pre kids k h
+    simp only [addNodeLoop]
+    split
+    · exact h
+    · split
+      · exact kidsOk_put h k (by simp [Tree.KeysOk, kidsOk])
+      · exact h
+      · exact h
+  | cons k' ks ih =>
+    intro pre kids k h
+    simp only [addNodeLoop]
+    split
+    · exact h
+    · split
+      · exact kidsOk_put h k (by simpa [Tree.KeysOk] using ih _ [] k' (by simp [kidsOk]))
+      · exact h
+      · next nm id sub hg =>
+        exact kidsOk_put h k (by simpa [Tree.KeysOk] using ih _ sub k' (kidsOk_sub h hg))
+
+theorem kidsOk_changeLoop (n : Str) (i : Oid) (ks : List Str) :
+    ∀ kids k, kidsOk kids → kidsOk (changeLoop (.share n i) kids k ks).1 := by
+  induction ks with
+  | nil =>
+    intro kids k h
+    simp only [changeLoop]
+    split
+    · exact kidsOk_put h k (by simp [Tree.KeysOk])
+    · exact h
+  | cons k' ks ih =>
+    intro kids k h
+    simp only [changeLoop]
+    split
+    · exact h
+    · split
+      · exact h
+      · exact h
+      · next nm id sub hg =>
+        exact kidsOk_put h k (by simpa [Tree.KeysOk] using ih sub k' (kidsOk_sub h hg))
+
+theorem kidsOk_step (lg : Bool) (root : Kids) (op : Op) (h : kidsOk root) :
+    kidsOk (step lg root op).1 := by
+  have hadd : ∀ n id tag, kidsOk (add lg root n id tag).1 := by
+    intro n id tag
+    unfold add
+    split
+    · exact h
+    · split
+      · exact h
+      · exact kidsOk_addLoop lg n id tag _ _ _ _ h
+  have haddNode : ∀ n tag, kidsOk (addNode lg root n tag).1 := by
+    intro n tag
+    unfold addNode
+    split
+    · exact h
+    · exact kidsOk_addNodeLoop lg tag _ _ _ _ h
+  cases op with
+  | fetch n => exact h
+  | fetchShare n => exact h
+  | fetchNode n => exact h
+  | addBad => exact h
+  | changeBad => exact h
+  | add n id tag =>
+    have := hadd n id tag
+    simp only [step]
+    cases hr : add lg root n id tag with
+    | mk r e => rw [hr] at this; cases e <;> exact this
+  | addNode n tag =>
+    have := haddNode n tag
+    simp only [step]
+    cases hr : addNode lg root n tag with
+    | mk r e => rw [hr] at this; cases e <;> exact this
+  | change n id =>
+    have := kidsOk_changeLoop n id (levels n).2 root (levels n).1 h
+    simp only [step]
+    cases hr : change root n id with
+    | mk r e => unfold change at hr; rw [hr] at this; cases e <;> exact this
+  | create n tag =>
+    simp only [step]
+    split
+    · exact h
+    · have := hadd (strip n) ⟨tag, 0⟩ tag
+      cases hr : add lg root (strip n) ⟨tag, 0⟩ tag with
+      | mk r e => rw [hr] at this; cases e <;> exact this
+  | createNode n tag =>
+    simp only [step]
+    split
+    · exact h
+    · have := haddNode n tag
+      cases hr : addNode lg root n tag with
+      | mk r e => rw [hr] at this; cases e <;> exact this
+
 end Ioflo.Store
